@@ -101,22 +101,22 @@ func bigLattice(tier string) *lattice {
 	half := new(big.Int).Quo(p36, big2)
 	coreVals := []*big.Int{
 		big.NewInt(0),
-		p36,                              // 1
-		mulp(big2, 36),                   // 2
-		mulp(big.NewInt(3), 36),          // 3
-		big.NewInt(1),                    // 1 ulp
-		half,                             // 0.5  (ties at the 36th digit against odd/even ulp counts)
-		mulp(big.NewInt(15), 35),         // 1.5
-		mulp(big.NewInt(25), 35),         // 2.5
-		big.NewInt(3),                    // 3 ulp
-		rep("3", 36),                     // 0.333..3 (36 digits)
-		addi(mulp(big2, 36), -1),         // 2 - 1ulp: 1ulp/(2-1ulp) is a tie only after truncation at 72 decimals
-		mulp(big.NewInt(5), 17),          // 0.5e-18: tie at the 18th digit for the precision conversions
-		mulp(big.NewInt(15), 17),         // 1.5e-18
-		pow10(155 + 36),                  // 1e155: squares beyond the bound
-		pow2(1024),                       // first value refused by the 1024-bit decoders
-		addi(maxBigRaw, -1),              // one ulp below the largest value
-		new(big.Int).Set(maxBigRaw),      // largest value
+		p36,                         // 1
+		mulp(big2, 36),              // 2
+		mulp(big.NewInt(3), 36),     // 3
+		big.NewInt(1),               // 1 ulp
+		half,                        // 0.5  (ties at the 36th digit against odd/even ulp counts)
+		mulp(big.NewInt(15), 35),    // 1.5
+		mulp(big.NewInt(25), 35),    // 2.5
+		big.NewInt(3),               // 3 ulp
+		rep("3", 36),                // 0.333..3 (36 digits)
+		addi(mulp(big2, 36), -1),    // 2 - 1ulp: 1ulp/(2-1ulp) is a tie only after truncation at 72 decimals
+		mulp(big.NewInt(5), 17),     // 0.5e-18: tie at the 18th digit for the precision conversions
+		mulp(big.NewInt(15), 17),    // 1.5e-18
+		pow10(155 + 36),             // 1e155: squares beyond the bound
+		pow2(1024),                  // first value refused by the 1024-bit decoders
+		addi(maxBigRaw, -1),         // one ulp below the largest value
+		new(big.Int).Set(maxBigRaw), // largest value
 	}
 	var mants []*big.Int
 	var exps []int
